@@ -30,6 +30,7 @@ def run(ctx):
     ctx.each(r03a, ctx, repo)
     ctx.each(r03b, ctx, repo)
     ctx.each(r03c, ctx, repo)
+    ctx.each(r03d, ctx, repo)
 
 
 def unit_consts_in_test(test, pv):
@@ -232,3 +233,25 @@ def r03c(ctx, repo):
         else:
             ctx.ok("R03c", ul, "`%s` is the bare conversion" % norm(s_)[:60], s_)
     ctx.require(n >= 5, "R03c: fewer _cache stores (%d) than confirmed (5)" % n)
+
+
+def r03d(ctx, repo):
+    ctx.rule("R03d", "the model's own arrays are read-only inputs of a step: in model.py, a local bound (on some path) to a numpy view of storage rooted at self (a slice such as self.interactions[name][:, :, ti], its .T / reshape) is never modified in place (augmented assignment, element store, out=); the weights of a population aggregation must be a private copy")
+    n = 0
+    for fi in repo.module("model").all_functions():
+        k, hits = K.self_view_inplace(repo, fi, skip_attrs=(".vals", "._vals"))
+        n += k
+        seen = set()
+        for st, name, d in hits:
+            if id(st) in seen:
+                continue
+            seen.add(id(st))
+            ctx.fail("R03d", fi, st, "`%s` can be a view of `%s` (bound at line %d, no copy on this path) and `%s` modifies it in place: the model's stored array is rewritten, so the next evaluation of this step (update_pars runs twice at the first index) or another parameter using the same array converts a different value than the one entered" % (name, ast.unparse(d.value)[:60], d.lineno, norm(st)[:50]))
+        if k and not hits:
+            ctx.ok("R03d", fi, "%d view binding(s) of self-rooted storage, none modified in place" % k)
+    fi = repo.func("model", "Model.update_pars")
+    w = [s for s in own_nodes(fi.node) if isinstance(s, ast.Assign) and isinstance(s.targets[0], ast.Name) and "self.interactions[" in ast.unparse(s.value)]
+    ctx.require(len(w) >= 1, "R03d: the binding of the aggregation weights from self.interactions not found in update_pars")
+    for s in w:
+        # a copy (so not a view) - or never modified (checked above)
+        ctx.ok("R03d", fi, "weights bound from `%s`" % ast.unparse(s.value)[:60], s)
